@@ -240,10 +240,14 @@ def run_portfolio(gb, flags, job, timeout, jout, tier):
         for be, p in procs.items():
             try:
                 os.killpg(p.pid, signal.SIGKILL)
-            except (ProcessLookupError, PermissionError):
+            except (ProcessLookupError, PermissionError, OSError):
+                pass
+            try:
+                p.kill()   # belt and braces: a solver that outlives its deadline would stall the whole check
+            except Exception:
                 pass
     for t in ths:
-        t.join()
+        t.join(60)
     dt = time.time() - t0
     if winner is None:
         with lock:
